@@ -49,7 +49,7 @@ let vdur = 4 s"""
 
 
 def EXPECTED_KNOWN(tier):
-    return ["F25", "F26", "F27", "F28", "F29", "F31"] + (["F32"] if tier == "thorough" else [])
+    return ["F25", "F26", "F27", "F28", "F29", "F31", "F45"] + (["F32"] if tier == "thorough" else [])
 
 
 def shards(tier, seed):
@@ -171,7 +171,18 @@ def gen_definition(rng, k):
         if form == 2:
             return f"fn {n}<D: Dim>(x: D, y: D) -> D = if x > y then x else y * 2", [f"{n}(1 m, 2 m)", f"{n}(3, 2)"]
         if form == 3:
-            return f"fn {n}(x) = y + z\n  where y = x * 2\n    and z = {body}", probes
+            sub = rng.randrange(6)
+            if sub == 0:
+                return f"fn {n}(x) = y + z\n  where y = x * 2\n    and z = {body}", probes
+            if sub == 1:      # locals of functions with several inferred type parameters
+                return f"fn {n}(p, r) = q\n  where q = r", [f"{n}(1, 2 m)", f'{n}("a", true)']
+            if sub == 2:
+                return f"fn {n}(p, r) = q\n  where q = r * r\n    and t = p", [f"{n}(1, 2 m)", f'{n}("a", 3 s)']
+            if sub == 3:
+                return f"fn {n}(p, r) = q + p\n  where q = r * p", [f"{n}(2 s, 2 m)", f"{n}(1, 2)"]
+            if sub == 4:
+                return f"fn {n}(p, r, u) = if p then q else u\n  where q = r / u * u", [f"{n}(true, 2 m, 1 m)", f"{n}(false, 2, 4)"]
+            return f"fn {n}(p) = q\n  where q = p", [f"{n}(1)", f'{n}("a")']
         if form == 4:
             return f"fn {n}(f: Fn[(Scalar) -> Scalar], x: Scalar) -> Scalar = f(x) + f({body})", [f"{n}(vsq, 2)"]
         if form == 5:
@@ -391,6 +402,20 @@ def classify(sh, case, why, S, P, r2=None, P2=None, only_idempotence=False, valu
         last = S.strip().splitlines()[-1]
         if re.fullmatch(r"unit \w+", last) and "Unknown entry" in (r2.get("msg") or "") and f"{last}: " in P:
             return sh.known_hit("F25", dict(case, why=why[:300]))
+        if r2.get("stage") == "type" and re.match(r"fn \w+<[A-Z], [A-Z]", P) and re.search(r"\n\s+(where|and) \w+: ", P) \
+                and not re.search(r"\n\s+(where|and) \w+: ", S):
+            # F45: the printer names the type variables of each where-local on its own (A, B, ... in order of appearance in
+            # that local's type), not with the names used in the function's signature. Witness predicate: the same echo
+            # with the annotations of the locals removed is accepted.
+            stripped = re.sub(r"(\n\s+(?:where|and) \w+): [^=\n]+ = ", r"\1 = ", P)
+            w = get_worker()
+            c = w.fork(case.get("base_session") or "c15base")
+            try:
+                r3 = w.eval(c, stripped, stmts=False)
+            finally:
+                w.drop(c)
+            if r3.get("ok"):
+                return sh.known_hit("F45", dict(case, why=why[:300]))
         if r2.get("stage") == "resolver" and ": forall " in P:
             return sh.known_hit("F28", dict(case, why=why[:300]))
         if r2.get("stage") == "resolver" and re.search(r"[\w)\]>²³] or [A-Z]", P):
